@@ -70,6 +70,22 @@ fn targets64(r: &mut Rng, pks: &[u64]) -> u64 {
     }
 }
 
+/// every observer of a treemap whose answer depends on the partition list being clean (no emptied partition left
+/// behind): the value itself, both ends, emptiness, the formatter, and a sorted append onto it (on a clone)
+fn observe_t(r: &mut Rng, out: &mut String, t: &str) {
+    writeln!(out, "tdump {}", t).unwrap();
+    writeln!(out, "tmin {}", t).unwrap();
+    writeln!(out, "tmax {}", t).unwrap();
+    writeln!(out, "tis_empty {}", t).unwrap();
+    writeln!(out, "tdebug {}", t).unwrap();
+    if r.chance(1, 2) {
+        writeln!(out, "tclone t9 {}", t).unwrap();
+        writeln!(out, "tappend t9 {} {}", M64 - 1, M64).unwrap();
+        writeln!(out, "tpush t9 {}", M64).unwrap();
+        writeln!(out, "tdump t9").unwrap();
+    }
+}
+
 pub fn gen_case(r: &mut Rng, out: &mut String) {
     // ---------------------------------------------------------------- the 64-bit type
     let pks: Vec<u64> = match r.below(6) {
@@ -114,19 +130,20 @@ pub fn gen_case(r: &mut Rng, out: &mut String) {
             }
             3..=5 => {
                 writeln!(out, "tremove_range t0 {} {}", lo, hi).unwrap();
-                writeln!(out, "tdump t0").unwrap();
+                observe_t(r, out, "t0");
             }
             6 => {
                 // the wide removals that a list model can afford (removal never grows the value)
-                let w = match r.below(4) {
+                let w = match r.below(5) {
                     0 => ("un".to_string(), "un".to_string()),
                     1 => ("in:0".to_string(), format!("in:{}", M64)),
                     2 => (format!("in:{}", a), "un".to_string()),
-                    _ => ("un".to_string(), format!("ex:{}", a)),
+                    3 => ("un".to_string(), format!("ex:{}", a)),
+                    _ => (format!("in:{}", (pks[0] << 32) | 7), format!("in:{}", (pks[pks.len() - 1] << 32) | 9)),
                 };
                 writeln!(out, "tclone t1 t0").unwrap();
                 writeln!(out, "tremove_range t1 {} {}", w.0, w.1).unwrap();
-                writeln!(out, "tdump t1").unwrap();
+                observe_t(r, out, "t1");
             }
             7 => writeln!(out, "trank t0 {}", targets64(r, &pks)).unwrap(),
             8 => writeln!(out, "tselect t0 {}", *r.pick(&[0u64, 1, 4096, 65536, M32, P32, 1 << 40, M64 - 1, M64])).unwrap(),
@@ -162,7 +179,11 @@ pub fn gen_case(r: &mut Rng, out: &mut String) {
                 2..=3 => writeln!(out, "jnext_back j0").unwrap(),
                 4..=6 if borrowed => writeln!(out, "jadvance_to j0 {}", targets64(r, &pks)).unwrap(),
                 7..=8 if borrowed => writeln!(out, "jadvance_back_to j0 {}", targets64(r, &pks)).unwrap(),
-                4..=8 => writeln!(out, "jlen j0").unwrap(),
+                4..=6 => writeln!(out, "jlen j0").unwrap(),
+                7..=8 => {
+                    let n = *r.pick(&[0u64, 1, 2, 4096, 5000, 65536, M32, P32, M64]);
+                    writeln!(out, "{} j0 {}", if r.chance(1, 2) { "jnth" } else { "jnth_back" }, n).unwrap()
+                }
                 _ => writeln!(out, "jsize_hint j0").unwrap(),
             }
         }
